@@ -63,7 +63,7 @@ KeyItemS(k) == CASE k = "k0" -> BytesItemD(0, "x", <<k>>) [] k = "kab" -> BytesI
                  [] OTHER -> BytesItemD(1, "lo", <<k>>)
 KeysI == <<<<"n", "z">>, <<"f">>, <<"z">>, <<"p">>, <<"z", "n">>, <<"p", "p">>>>   \* < -256, -1, 0, 1..127, 128..254, >= 257
 KeysU == <<<<"z">>, <<"p">>, <<"z", "n">>, <<"p", "p">>>>
-Cls1(d) == IF Len(d) = 1 THEN (IF d[1] \in {"z", "p"} THEN "lo" ELSE "hi") ELSE "x"
+Cls1(d) == IF Len(d) = 1 THEN (IF d[1] \in {"z", "p", "one"} THEN "lo" ELSE "hi") ELSE "x"   \* "one" = the byte 01
 IntItem(d) == BytesItemD(Len(d), Cls1(d), d)
 KeySeq(t) == CASE t = "mapS" -> KeysS [] t = "mapI" -> KeysI [] OTHER -> KeysU
 KeyItem(t, k) == IF t = "mapS" THEN KeyItemS(k) ELSE IntItem(k)
